@@ -60,3 +60,21 @@ Theorem C03_in_interval_kernel_text_computes_model : forall ts ep fuel,
   end.
 Proof. exact k_jitin_interval_computes_model. Qed.
 Print Assumptions C03_in_interval_kernel_text_computes_model.
+
+(* TOTAL correctness (Jit/Total.v): the three kernel texts terminate and return the model's value. *)
+From Verif Require Import Inv.Jitrestrict_total Inv.Jitrestrict_with_count_total Inv.Jitin_interval_total.
+Theorem C03_kernel_text_total : forall ts ep, Forall (fun I => fst I <= snd I) ep ->
+  exists fuel, run fuel k_jitrestrict (jitrestrict_args ts ep) = Return [index_array (restrict_idx ts ep)].
+Proof. exact k_jitrestrict_total. Qed.
+Print Assumptions C03_kernel_text_total.
+
+Theorem C03_with_count_kernel_text_total : forall ts ep, Forall (fun I => fst I <= snd I) ep ->
+  exists fuel, run fuel k_jitrestrict_with_count (jitrestrict_args ts ep)
+               = Return [index_array (restrict_idx ts ep); index_array (restrict_cnt ts ep)].
+Proof. exact k_jitrestrict_with_count_total. Qed.
+Print Assumptions C03_with_count_kernel_text_total.
+
+Theorem C03_in_interval_kernel_text_total : forall ts ep, sortedZ ts -> sortedZ (firsts ep) ->
+  exists fuel, run fuel k_jitin_interval (jitrestrict_args ts ep) = Return [in_array (in_interval ts ep)].
+Proof. exact k_jitin_interval_total. Qed.
+Print Assumptions C03_in_interval_kernel_text_total.
